@@ -55,10 +55,15 @@ def mean_cases(draw):
                 data[c][p_idx] = offset + (c + 1) * 16.0 + b
     wmode = draw(st.sampled_from(["none", "weights", "uncertainty", "uncertainty_noweights"]))
     weights = None
+    int_weights = False
     if wmode in ("weights", "uncertainty"):
-        weights = [draw(st.lists(st.one_of(st.integers(1, 16).map(lambda k: k / 4.0), gen.finite(0.01, 100)), min_size=n, max_size=n))
-                   for _ in range(ncomp)]
-    return dict(layout=lay, points=pts, data=data, weights=weights, wmode=wmode, center=draw(st.booleans()),
+        int_weights = draw(st.sampled_from([False, False, True]))  # whole-number weights (1/sigma^2 with sigma = 1, 1/2, 1/3) stored with an integer dtype
+        if int_weights:
+            weights = [[float(k) for k in draw(st.lists(st.sampled_from([1, 1, 4, 9, 16, 2, 3]), min_size=n, max_size=n))] for _ in range(ncomp)]
+        else:
+            weights = [draw(st.lists(st.one_of(st.integers(1, 16).map(lambda k: k / 4.0), gen.finite(0.01, 100)), min_size=n, max_size=n))
+                       for _ in range(ncomp)]
+    return dict(layout=lay, int_weights=int_weights, points=pts, data=data, weights=weights, wmode=wmode, center=draw(st.booleans()),
                 extra=draw(st.sampled_from([0, 0, 1, 2])), drop=draw(st.booleans()),
                 shape=draw(st.sampled_from(blocks.shape_options(n))), readonly=draw(st.booleans()), orders=draw(build.orders_strategy()), container=draw(st.sampled_from(build.CONTAINERS)))
 
@@ -81,7 +86,7 @@ def check_mean(case, ctx):
     n = lay_([p[1] for p in xy], shape)
     e, n = blocks.pixel_array(lay, e), blocks.pixel_array(lay, n)
     data = tuple(lay_(d, shape) for d in case["data"])
-    weights = None if case["weights"] is None else tuple(lay_(w, shape) for w in case["weights"])
+    weights = None if case["weights"] is None else tuple(lay_(w, shape, "int64" if case.get("int_weights") else "float64") for w in case["weights"])
     arrays = [e, n] + list(data) + (list(weights) if weights else [])
     before = [a.copy() for a in arrays]
     if case["readonly"]:
